@@ -50,7 +50,13 @@ struct Preprocessor {
     helpers: Vec<HelperForm>,
     strict: bool,
     stored_macros: HashMap<Vec<u8>, Rc<SExp>>,
+    // How many macro results we're currently inside of while expanding.
+    macro_depth: usize,
 }
+
+// A macro whose expansion contains another use of itself can go on forever;
+// stop well before the native stack does.
+const MACRO_EXPANSION_DEPTH_LIMIT: usize = 200;
 
 fn compose_defconst(loc: Srcloc, name: &[u8], sexp: Rc<SExp>) -> Rc<SExp> {
     Rc::new(enlist(
@@ -101,6 +107,7 @@ impl Preprocessor {
             helpers: Vec::new(),
             strict: opts.dialect().strict,
             stored_macros: HashMap::default(),
+            macro_depth: 0,
         }
     }
 
@@ -345,7 +352,19 @@ impl Preprocessor {
                         .map(nilize)
                         .map_err(CompileErr::from)?;
 
-                        if let Some(final_result) = self.expand_macros(res.clone(), true)? {
+                        if self.macro_depth >= MACRO_EXPANSION_DEPTH_LIMIT {
+                            return Err(CompileErr(
+                                body.loc(),
+                                format!(
+                                    "macro expansion of {} nested more than {MACRO_EXPANSION_DEPTH_LIMIT} deep",
+                                    decode_string(&name)
+                                ),
+                            ));
+                        }
+                        self.macro_depth += 1;
+                        let expanded_result = self.expand_macros(res.clone(), true);
+                        self.macro_depth -= 1;
+                        if let Some(final_result) = expanded_result? {
                             return Ok(Some(final_result));
                         } else {
                             return Ok(Some(res));
